@@ -21,7 +21,7 @@ from . import key_driver as kd
 
 NOTOL = 99
 ALL_FLOATS = set(range(1, 17))
-ALL_OTHERS = {21, 22, 23, 24, 25, 26, 27, 28, 29}
+ALL_OTHERS = {21, 22, 23, 24, 25, 26, 27, 28, 29, 30}
 ALL_SHAPES = set(range(1, 24))
 ALIAS_SHAPES = {22, 23}        # calls that contain equal containers: also made with ONE shared object in their place
 # per tolerance: floats that merge / tie at that tolerance, and a few non-floats (quick tier)
@@ -30,11 +30,12 @@ QUICK_ALPHA = {
     -1: ({9, 10, 11, 12}, {22, 27, 23}),
     0: ({1, 2, 3, 13, 14}, {21, 23, 24, 28}),      # 28: a one-shot iterator
     1: ({4, 5, 6, 7, 15, 16}, {21, 23, 25, 29}),         # 29: a class object; 15, 16: negative values that round to -0.0
-    2: ({4, 5, 7, 8}, {21, 26}),
+    2: ({4, 5, 7, 8}, {21, 26, 30}),              # 30: an object whose iter() raises ValueError
 }
 DEVIATIONS = {
     'deep_dict_nonstr_keys': dict(FloatIds={2, 3}, OtherIds=set(), ShapeIds={7, 11}, TolIds={10}),
     'shallow_str_listified': dict(FloatIds={2}, OtherIds={23, 26}, ShapeIds={1}, TolIds={10}),
+    'iter_error_propagates': dict(FloatIds={2}, OtherIds={30}, ShapeIds={1, 2, 6}, TolIds={10}),
     'deep_rebuild_raises': dict(FloatIds={2, 3}, OtherIds=set(), ShapeIds={17, 18, 20}, TolIds={10}),
 }
 STR = {100: 'a', 101: 'b', 105: 'ab'}
@@ -44,6 +45,27 @@ RECV = []
 ALGS = ['inf', 'lru', 'lfu', 'mru', 'rr', 'no']
 import collections
 NT = collections.namedtuple('NT', ['p', 'q'])
+
+
+class BadIter(object):
+    """behaves like a closed file: iter() raises ValueError (not TypeError); equal, hashable, printable and picklable"""
+    def __iter__(self):
+        raise ValueError('I/O operation on closed file.')
+
+    def __eq__(self, other):
+        return type(other) is BadIter
+
+    def __ne__(self, other):
+        return type(other) is not BadIter
+
+    def __hash__(self):
+        return 77
+
+    def __repr__(self):
+        return 'BadIter()'
+
+    def __reduce__(self):
+        return (BadIter, ())
 
 
 def cfg_text(consts, spec, invariants=()):
@@ -122,6 +144,8 @@ def _build(n, memo=None):
         return iter([1.5, 2.5, 0.125][:n['v']])
     if t == 'cls':
         return int
+    if t == 'badit':
+        return BadIter()
     if t == 'ipnet':
         import ipaddress
         return ipaddress.ip_network('10.0.0.0/%d' % n['v'])
@@ -177,6 +201,8 @@ def describe(x):
         return leaf('iter', x.__length_hint__())     # (what is left in it; looking does not consume it)
     if x is int:
         return leaf('cls', 1)
+    if type(x) is BadIter:
+        return leaf('badit', 1)
     if type(x) is range:
         return leaf('range', len(x)) if x == range(len(x)) else leaf('other', 4)
     if type(x) is NT:
